@@ -52,6 +52,15 @@ fn main() {
             let trace = agentmodes::run_history(&h, transport, std::time::Instant::now(), &mut errs);
             for t in &trace { println!("  {}", t); }
             for (k, e) in errs { rep.violate(&k, e, w.clone()); }
+        } else if parts.len() == 3 && parts[1] == "exh" {
+            let f: Vec<&str> = parts[2].split(':').collect();
+            let (d, idx): (usize, u64) = (f[0].parse().unwrap(), f[1].parse().unwrap());
+            let transport = if f[2] == "tcp" { TransportType::Tcp } else { TransportType::Udp };
+            let h = agentmodes::small_history(d, idx);
+            let mut errs = vec![];
+            let trace = agentmodes::run_history(&h, transport, std::time::Instant::now(), &mut errs);
+            for t in &trace { println!("  {}", t); }
+            for (k, e) in errs { rep.violate(&k, e, w.clone()); }
         } else {
             // generic: re-run the mode with the recorded seed (witness formats that embed only a case index)
             let seed: u64 = std::env::var("VERIF_SEED").ok().and_then(|s| s.parse().ok()).unwrap_or(1);
